@@ -149,6 +149,14 @@ def gen_cases(ctx):
             t.pop("ownstream", None)
         cases.append(cw.Case(w, {"verbose": rng.choice([0, 1]), "buffer": True, "post_mortem": True, "_stdin": "c\n" * 5},
                              "buffer+post-mortem"))
+    # tests that replace both std streams and go wrong before putting them back: the next test's layer hooks see the
+    # real streams all the same
+    from harness import corr_c04
+    for c in corr_c04.leak_cases(ctx, 4 if ctx.quick() else 60):
+        for l in c.world["layers"]:
+            if l["kind"] != "unit":
+                l["testSetUp"] = l["testTearDown"] = True
+        cases.append(c)
     return cases
 
 
